@@ -1,0 +1,132 @@
+//go:build verif
+
+package compiler
+
+// Exports for the verification harness in /verif (build tag "verif" only).
+// Add-only: nothing here is referenced by the compiler itself.
+
+import (
+	"bytes"
+	"go/token"
+	"io"
+
+	"github.com/gopherjs/gopherjs/compiler/internal/dce"
+	"github.com/gopherjs/gopherjs/compiler/linkname"
+	"github.com/gopherjs/gopherjs/internal/sourcemapx"
+)
+
+// VerifRemoveWhitespace runs the minifier's whitespace scanner on one chunk.
+func VerifRemoveWhitespace(b []byte) []byte { return removeWhitespace(b, true) }
+
+// VerifNameScope drives the real funcContext.newVariable allocator.
+type VerifNameScope struct{ fc *funcContext }
+
+// VerifNewNameScope returns a package-level scope (reserved words pre-seeded as
+// in newRootCtx).
+func VerifNewNameScope(minify bool) *VerifNameScope {
+	fc := &funcContext{
+		pkgCtx:  &pkgContext{minify: minify},
+		allVars: make(map[string]int),
+	}
+	for name := range reservedKeywords {
+		fc.allVars[name] = 1
+	}
+	return &VerifNameScope{fc: fc}
+}
+
+// Nested returns a child scope the way nestedFunctionContext creates it (the
+// parent's names are copied).
+func (s *VerifNameScope) Nested() *VerifNameScope {
+	c := &funcContext{pkgCtx: s.fc.pkgCtx, parent: s.fc, allVars: make(map[string]int, len(s.fc.allVars))}
+	for k, v := range s.fc.allVars {
+		c.allVars[k] = v
+	}
+	return &VerifNameScope{fc: c}
+}
+
+// NewVariable allocates a JavaScript name for the Go name.
+func (s *VerifNameScope) NewVariable(name string, pkgLevel bool) string {
+	return s.fc.newVariable(name, pkgLevel)
+}
+
+// VerifIsReserved reports whether name is a reserved JavaScript word for the compiler.
+func VerifIsReserved(name string) bool { return reservedKeywords[name] }
+
+// VerifPosHint returns the encoded source map hint for a position.
+func VerifPosHint(pos token.Pos) []byte {
+	h := sourcemapx.Hint{}
+	if err := h.Pack(pos); err != nil {
+		panic(err)
+	}
+	buf := &bytes.Buffer{}
+	h.WriteTo(buf)
+	return buf.Bytes()
+}
+
+// VerifIdentHint returns the encoded hint of an identifier mapping.
+func VerifIdentHint(name, originalName string, pos token.Pos) []byte {
+	return []byte(sourcemapx.Identifier{Name: name, OriginalName: originalName, OriginalPos: pos}.EncodeHint())
+}
+
+// VerifMapping is one decoded source map entry produced by the real Filter.
+type VerifMapping struct {
+	GenLine, GenColumn int
+	File               string
+	Line, Column       int
+	Name               string
+}
+
+// VerifFilter wraps the real sourcemapx.Filter.
+type VerifFilter struct {
+	f *sourcemapx.Filter
+}
+
+// VerifNewFilter creates a Filter writing to w; with mapping enabled the
+// mappings are collected through the default callbacks.
+func VerifNewFilter(w io.Writer, fset *token.FileSet, mapping bool) *VerifFilter {
+	f := &sourcemapx.Filter{Writer: w, FileSet: fset}
+	if mapping {
+		f.EnableMapping("out.js", "/goroot", "/gopath", false)
+	}
+	return &VerifFilter{f: f}
+}
+
+func (v *VerifFilter) Write(p []byte) (int, error) { return v.f.Write(p) }
+
+// WriteJS forwards to Filter.WriteJS.
+func (v *VerifFilter) WriteJS(src, path string, minify bool) (int, error) {
+	return v.f.WriteJS(src, path, minify)
+}
+
+// MapJSON returns the source map as JSON.
+func (v *VerifFilter) MapJSON() []byte {
+	buf := &bytes.Buffer{}
+	v.f.WriteMappingTo(buf)
+	return buf.Bytes()
+}
+
+// VerifAliveDecls runs the real dead-code selector over the archives exactly as
+// WriteProgramCode does and returns the full names of the declarations kept,
+// per package import path.
+func VerifAliveDecls(pkgs []*Archive) map[string][]*Decl {
+	gls := linkname.GoLinknameSet{}
+	for _, pkg := range pkgs {
+		gls.Add(pkg.GoLinknames)
+	}
+	sel := &dce.Selector[*Decl]{}
+	for _, pkg := range pkgs {
+		for _, d := range pkg.Declarations {
+			sel.Include(d, gls.IsImplementation(d.LinkingName))
+		}
+	}
+	alive := sel.AliveDecls()
+	out := map[string][]*Decl{}
+	for _, pkg := range pkgs {
+		for _, d := range pkg.Declarations {
+			if _, ok := alive[d]; ok {
+				out[pkg.ImportPath] = append(out[pkg.ImportPath], d)
+			}
+		}
+	}
+	return out
+}
